@@ -75,6 +75,9 @@ def hid_scenarios(tier, seed):
               "release_plan": [rng.choice([1, 1, 2, -1, 0]) for _ in range(rng.randrange(0, 25))],
               "tail_sends": 300, "horizon": 60, "settle": 30, "returns": returns, "outage": outage, "repeat": repeat, "tag": "hid:%d" % k,
               "sequence_exceptions": exceptions}
+        if k % 3 == 1:
+            sc["glob"] = 1                         # device node given as a pattern ...
+            sc["rename_on_return"] = k % 2         # ... and the device may come back under another matching name
         scs.append(sc)
     # a device-type command sent with exceptions off, the gateway lost at every point of its two frames and back after
     # half a second: the transparent retry must put the whole unit (prefix + command) on the wire again
